@@ -1233,6 +1233,9 @@ unsigned long sim_fwrite(const void *p, unsigned long sz, unsigned long n, void 
 
 void *sim_malloc(unsigned long n)
 {
+	// a plan that makes the editor hold millions of lines (a global putting a large register on every line)
+	// is ended unjudged before it takes the machine's memory: allocation failure is not a fault we inject
+	if (K.live.size() > 3000000 || n > (1ul << 30)) K.end_run(OUT_PLAN_END, "memory budget: the run holds more than 3 000 000 allocations");
 	void *p = malloc(n ? n : 1);
 	if (!p) return nullptr;
 	memset(p, 0xA5, n);
